@@ -7,10 +7,10 @@ open GoaktVerif.Driver GoaktVerif.Model.C30
 
 def parseOp (s : String) : Option Op :=
   if s = "s" then some .s else if s = "sa" then some .sa else if s = "sp" then some .sp
-  else if s = "d" then some .d else none
+  else if s = "d" then some .d else if s = "t" then some .t else none
 
 def showRes : Res → String
-  | .ok => "ok" | .own n => s!"own{n}" | .eact => "eact" | .ereg => "ereg" | .none => "none"
+  | .ok => "ok" | .own n => s!"own{n}" | .eact => "eact" | .ereg => "ereg" | .none => "none" | .tick => "tick"
 
 def showEv : HookEv → String
   | .act n => s!"a{n}" | .fail n => s!"f{n}" | .deact n => s!"d{n}" | .deactIdle n => s!"e{n}"
